@@ -168,3 +168,4 @@ for _c in ALL:
 from . import c08 as _c08, c11 as _c11   # noqa: E402
 share('C08', 'C15', 'P', lambda n: n.split('.')[0] in ('S1', 'S2', 'S3', 'S4', 'S6'))      # withdraw / close / create / expand: sender roles incl. the pool manager
 share('C11', 'C15', 'F', lambda n: n.startswith(('S3.', 'S4.')))                      # farm expand / close: farm owner, contract owner, others
+from . import lockdep   # noqa: E402,F401  (the pool manager as the only delegate: locked deposits reach only the sender's own positions; registered as C15.L1)
